@@ -141,7 +141,7 @@ def run_shard(ctx):
         negative_delay_probes(ctx)
     else:
         ctx.count("negative_delay_probes", 0)
-    for i in range(ncases(ctx.tier)):
+    for i in ctx.cases(ncases(ctx.tier)):
         case = make_case(ctx.rng(i))
         viol, nt = one_case(ctx, case["program"], case["stops"])
         for m, what, wit in viol:
